@@ -425,7 +425,8 @@ def cli_history(ctx, grog, rng, hcase, stats):
             i = rng.choice(sorted(k for k in inputs if inputs[k]))
             f = os.path.normpath(os.path.join(nodes[i]["pkg"], rng.choice(inputs[i])))
         with open(os.path.join(ws, f), "a") as fh:
-            fh.write("edited\n")
+            # a package definition file that is also a declared input is edited in a way that keeps it loadable (trailing white space)
+            fh.write("\n  \n" if os.path.basename(f) == "BUILD.json" else "edited\n")
     open(trace, "w").close()
     rc, _, err, _ = G.run_grog(grog, ["build", "//..."], ws, env, timeout=120)
     executed = set(l.strip() for l in open(trace) if l.strip())
